@@ -75,7 +75,7 @@ ValidMode(m) == m \in 1..1025
 ABuild(e) ==
     LET b   == BatchOf(e.batch)
         c   == Build(b)
-        key == <<b, e.mode, e.norm, e.impl>>
+        key == <<e.batch, e.mode, e.norm, e.impl>>     \* (the batch by its id: comparing contents of 10 000-term batches is slow)
         ok  == e.res.kind = "ok"
         bad == IF ~ValidMode(e.mode) THEN {}
                ELSE IF ~ValidBatch(b) THEN {"GEN"}       \* outside the input contract: the generator's fault
@@ -384,7 +384,7 @@ AMatch(e) ==
        /\ obs' = Obs("match", props, Judge(e.seg, props, e.res.kind, val, exp, {}), exp, e.res)
        /\ Frame
 
-ZeroStats == [total |-> 0, docs |-> 0, sumttf |-> 0]
+ZeroStats == [total |-> 0, docs |-> 0, sumttf |-> BigZero]
 
 AStats(e) ==
     LET c == segs[e.seg].c
@@ -519,7 +519,7 @@ ARace(e) ==
 \* L is the length of the fault-free file.
 OutcomeBad(o, mode, L) ==
     LET k == o[1]  err == o[2]  complete == o[4]  n == o[6] IN
-    IF mode = "fail"
+    IF mode \in {"fail", "retry"}      \* "retry": a second WriteTo on the same Merger, after a complete first one
     THEN \/ err \in {"panic", "blocked", "closed"}
          \/ (k < L /\ err = "nil")                              \* silent success on a failed writer
          \/ (k >= L /\ (err # "nil" \/ ~complete \/ n # L))      \* nothing failed: must succeed fully
